@@ -419,6 +419,11 @@ class HierDictDocument(DictDocument):
                 cls, = ti.values()
                 ti = getattr(cls, '_type_info', {})
 
+            if inst is None:
+                # the wrapper held nothing: don't render a missing object as
+                # an empty one.
+                return None
+
         # transform the results into a dict:
         if cls.Attributes.max_occurs > 1:
             if inst is not None:
